@@ -190,3 +190,269 @@ def query(rng, depth):
     n = rng.choice([2, 2, 2, 3])
     op = rng.choice([" AND ", " OR ", " ", " && ", " || "])
     return op.join("(%s)" % query(rng, depth - 1) for _ in range(n))
+
+
+# ------------------------------------------------------------------------------------------------
+# C30: query texts generated from the PEG (grammar.pest), with every escape-worthy character
+# ------------------------------------------------------------------------------------------------
+
+SPECIALS = list(':+-=><!(){}[]^"~*?\\/')
+WS = [" ", " ", " ", "  ", "\t", "\n", "\r", " \t "]
+PLAIN = list("abcxyz019_.@,;'%#&|$") + ["é", "日", "ab", "foo", "bar"]
+KEYWORDISH = ["AND", "OR", "NOT", "ANDROID", "ORange", "NOTE", "&&", "||", "TO", "UNICODE3000", "xUNICODE3000", "E",
+              "inf", "nan", "_exists_", "_missing_", "_default_"]
+
+
+def esc_char(rng):
+    """ESC_CHAR: a backslash and any character"""
+    r = rng.random()
+    if r < 0.7:
+        return "\\" + rng.choice(SPECIALS)
+    if r < 0.8:
+        return "\\" + rng.choice([" ", "\t"])
+    return "\\" + rng.choice(PLAIN + ["A", "N", "O", "1", "-"])
+
+
+def term_text(rng, safe=False, glob=False, maxlen=5):
+    """TERM (or TERM_GLOB when glob): start char + TERM_CHAR*; `safe` = no whitespace / keyword hazards"""
+    n = rng.randint(1, maxlen)
+    out = []
+    for i in range(n):
+        r = rng.random()
+        if r < 0.55:
+            out.append(rng.choice(PLAIN))
+        elif r < 0.8:
+            e = esc_char(rng)
+            if safe and e[1] in " \t":
+                e = "\\:"
+            out.append(e)
+        elif r < 0.88 and i > 0:
+            out.append(rng.choice("-+="))
+        elif r < 0.94 and glob:
+            out.append(rng.choice("*?"))
+        elif not safe:
+            out.append(rng.choice(KEYWORDISH))
+        else:
+            out.append(rng.choice(PLAIN))
+    if glob and not any(x in ("*", "?") for x in out):
+        out.insert(rng.randint(0, len(out)), rng.choice("*?"))
+    return "".join(out)
+
+
+def phrase_text(rng):
+    n = rng.randint(0, 5)
+    out = []
+    for _ in range(n):
+        r = rng.random()
+        if r < 0.4:
+            out.append(rng.choice(PLAIN))
+        elif r < 0.6:
+            out.append(rng.choice([" ", " ", "\t", "\n"]))
+        elif r < 0.8:
+            out.append(rng.choice([c for c in SPECIALS if c not in '"\\']))
+        elif r < 0.9:
+            out.append(rng.choice(['\\"', "\\\\", "\\a", "\\ "]))
+        else:
+            out.append(rng.choice(KEYWORDISH))
+    return '"' + "".join(out) + '"'
+
+
+NUMS = ["0", "1", "5", "10", "-3", "\\-3", "1.5", "2.0", "-0.25", "007", "1E5", "1E-2", "1.5E3", "9223372036854775807",
+        "9223372036854775808", "-9223372036854775808", "1.0", "100.50", "-0", "-0.0", "3.14159", "0.1", "1E400",
+        "123456789012345678901234567890", "1.", "5E", "4.5E\\-1"]
+RANGE_ATOMS = NUMS + ["*", "a", "abc", "\"a\"", "\"1\"", "\"*\"", "\"\"a\"\"", "inf", "nan", "NaN", "+5", "-inf", "1e5",
+                      ".5", "5.", "1_0", "a:b", "a\\:b", "\\*", "AND", "TO", "x-y", "é", "(a)", "a\\", "\"", "\"\"",
+                      "infinity", "+nan", "1e", "e5", "0x10", "--1", "+-1", "1.5.2", "1e+5", "1E+05", "9e999", "1e-999",
+                      "00000000000000000000000000001", "0.000000000000000000000000000000001", "a*", "?"]
+
+
+def field_text(rng, safe=False):
+    r = rng.random()
+    if safe or r < 0.6:
+        return rng.choice(["f", "foo", "@a", "@b.c", "host", "service", "tag1", "a.b", "x_y", "é", "@a-b", "f1", "a/b"])
+    if r < 0.75:
+        return rng.choice(["_exists_", "_missing_", "_default_", "\\_exists_", "\\_default_", "\\_missing_"])
+    return term_text(rng, maxlen=3)
+
+
+def sp(rng, p=0.15):
+    """optional whitespace where the grammar skips it"""
+    return rng.choice(WS) if rng.random() < p else ""
+
+
+def value_text(rng, safe=False):
+    r = rng.random()
+    if r < 0.06:
+        return "*"
+    if r < 0.2:
+        return phrase_text(rng)
+    if r < 0.32:
+        return term_text(rng, safe) + "*"
+    if r < 0.47:
+        op = rng.choice([">", ">=", "<", "<="])
+        return op + (rng.choice(NUMS) if rng.random() < 0.6 else term_text(rng, safe, maxlen=3))
+    if r < 0.62:
+        mixed = (not safe) and rng.random() < 0.04
+        lb = rng.choice("[{")
+        rb = {"[": "]", "{": "}"}[lb] if not mixed else {"[": "}", "{": "]"}[lb]
+        a, b = rng.choice(RANGE_ATOMS), rng.choice(RANGE_ATOMS)
+        return lb + sp(rng) + a + rng.choice([" ", " ", "  ", "\t"]) + "TO" + rng.choice([" ", " ", "", "\n"]) + b + sp(rng) + rb
+    if r < 0.85:
+        return term_text(rng, safe)
+    return term_text(rng, safe, glob=True)
+
+
+def clause_text(rng, depth, safe=False):
+    r = rng.random()
+    if r < 0.04:
+        return "*:*"
+    f = (field_text(rng, safe) + ":" + sp(rng, 0.05)) if rng.random() < 0.45 else ""
+    if r < 0.8 or depth <= 0:
+        return f + value_text(rng, safe)
+    return f + "(" + sp(rng) + query_text(rng, depth - 1, safe) + sp(rng) + ")"
+
+
+def query_text(rng, depth, safe=False):
+    n = rng.choice([1, 1, 2, 2, 3, 4])
+    out = []
+    for i in range(n):
+        if i > 0:
+            out.append(rng.choice(WS))
+            r = rng.random()
+            if r < 0.5:
+                out.append(rng.choice(["AND", "OR", "&&", "||", "AND", "OR"]) + rng.choice(WS))
+        r = rng.random()
+        if r < 0.2 and not safe:
+            # multiterm: a few bare terms
+            out.append(rng.choice(WS).join(term_text(rng, safe, maxlen=3) for _ in range(rng.randint(1, 3))))
+            continue
+        if r < 0.4:
+            out.append(rng.choice(["-", "NOT ", "+", "NOT", "- "]))
+        out.append(clause_text(rng, depth, safe))
+    return "".join(out)
+
+
+MUT_POOL = SPECIALS + [" ", " ", "\t", "a", "1", "AND", "OR", "NOT", "TO", "&&", "||", "\\", "\\\\", "*:*", "é"]
+
+
+def mutate_text(rng, q):
+    cs = list(q)
+    for _ in range(rng.randint(1, 3)):
+        r = rng.random()
+        i = rng.randint(0, len(cs))
+        if r < 0.4:
+            cs.insert(i, rng.choice(MUT_POOL))
+        elif r < 0.7 and cs:
+            del cs[min(i, len(cs) - 1)]
+        elif cs:
+            cs[min(i, len(cs) - 1)] = rng.choice(MUT_POOL)
+    return "".join(cs)
+
+
+# --- hazard analysis of a parsed tree (which recorded finding, if any, a round-trip failure belongs to) ---
+
+INVALID = set('"()[]{}+-!:~^?*\\>=<')
+WSCH = set(" \t\r\n")
+KW = ("AND", "OR", "NOT", "&&", "||", "-")
+
+
+def kw_prefixed(s):
+    return s.startswith(KW)
+
+
+def raw_term_safe(s):
+    """s printed as is re-lexes as the single TERM s"""
+    return (s != "" and not any(c in INVALID or c in WSCH for c in s) and not kw_prefixed(s)
+            and "UNICODE3000" not in s)
+
+
+def value_hazards(v, root_default_term=False):
+    """hazards of a term / prefix / comparison string printed through lucene_escape"""
+    hs = set()
+    words = v.split(" ") if root_default_term else [v]
+    for w in words:
+        if w == "" or any(c in WSCH for c in w):
+            hs.add("whitespace")
+        if w.startswith(("AND", "OR", "NOT", "&&", "||")) or "UNICODE3000" in w:
+            hs.add("keyword")
+    return hs
+
+
+def looks_int(s):
+    """the text reads back as an i64"""
+    import re
+    return re.fullmatch(r"[+-]?[0-9]+", s) is not None and -2**63 <= int(s) < 2**63
+
+
+def tree_hazards(t, fl):
+    """set of hazard classes present in tree t; fl: {bits: display text}"""
+    hs = set()
+
+    def cv_haz(v, in_range):
+        if "f" in v:
+            txt = fl.get(v["f"], "")
+            if looks_int(txt) or (not in_range and txt in ("inf", "-inf", "NaN")):
+                hs.add("float-text")
+        if "s" in v:
+            s = v["s"]
+            if in_range:
+                if len(s) >= 3 and s[0] == '"' and s[-1] == '"':
+                    hs.add("string-bound")
+            else:
+                hs.update(value_hazards(s))
+                import re
+                if re.match(r"-?[0-9]", s):
+                    hs.add("string-bound")
+
+    def go(n, root, first=True):
+        """first: n is printed at the very start of a (sub)query, where `multiterm` is tried before `clause`"""
+        k = n["k"]
+        if k in ("all",):
+            return
+        if k == "none":
+            if not root:
+                hs.add("nodocs-nested")
+            return
+        if k in ("exists", "missing"):
+            if not raw_term_safe(n["attr"]):
+                hs.add("attr-raw")
+            return
+        if k == "not":
+            if n["n"]["k"] == "none":
+                hs.add("nodocs-nested")
+            go(n["n"], False, n["n"]["k"] in ("and", "or", "not"))
+            return
+        if k in ("and", "or"):
+            for i, x in enumerate(n["ns"]):
+                if k == "and" and x["k"] == "not" and x["n"]["k"] == "not":
+                    hs.add("not-not")
+                go(x, False, i == 0 or x["k"] in ("and", "or"))
+            return
+        a = n["attr"]
+        if a != "_default_" and not raw_term_safe(a):
+            hs.add("attr-raw")
+        if a in ("_exists_", "_missing_") and k in ("term", "quoted"):
+            hs.add("attr-raw")
+        if k == "term":
+            hs.update(value_hazards(n["v"], root and a == "_default_"))
+        elif k == "prefix":
+            hs.update(value_hazards(n["v"]))
+        elif k == "wild":
+            v = n["v"]
+            if a == "_default_" and v == "*":
+                hs.add("attr-raw")
+            if (any(c in WSCH or (c in INVALID and c not in "*?-+=") for c in v) or v[:1] in ("-", "+", "=")
+                    or kw_prefixed(v) or "UNICODE3000" in v or v == ""):
+                hs.add("wildcard-raw")
+            import re
+            m = re.match(r"[^*?]+\?", v)
+            if a == "_default_" and first and m:
+                hs.add("wildcard-multiterm")
+        elif k == "cmp":
+            cv_haz(n["v"], False)
+        elif k == "range":
+            cv_haz(n["lo"], True)
+            cv_haz(n["hi"], True)
+
+    go(t, True)
+    return hs
